@@ -49,8 +49,8 @@ CHECKS = {
    design_ref="DESIGN.md 3/C10",
    note="Trusted: the byte image model; ASan redzones as guard. In hist.matrix bodies above 256 KiB are addressed in row 0 only; hist.hugematrix compares the written bytes, their neighbourhood and alias candidates rather than the whole body. Half-float entries need a CPU with F16C."),
  "C17": dict(engine="E-FIBER + E-TRACE fiber", category="exploration",
-   technique="deterministic simulation: seeded fiber scheduler at compiler-inserted yield points + conflict detector",
-   text="2-16 simulated threads (cooperative fibers) call the codecs documented as pure - scalar put/get of every family, delta, FOR, PFOR, group, dictionary (incl. a shared read-only prebuilt dictionary), RLE, Elias, BP128, float, adaptive, packed arrays and bitstreams on slot/word-disjoint slices of shared storage - on shared inputs and private outputs. Library code is compiled with TSan's instrumentation pass but linked against the simulator's own callbacks, so every load, store, memcpy/memset and basic block is a yield point at which a seeded scheduler (random preemption, PCT, sequential) decides who runs. Oracles: byte-granular conflict detection (two tasks, same byte, at least one write, no common simulated lock), every return value and output bit-identical to the same program run alone, shared inputs unchanged, no crash/deadlock/step overrun. Exploration over schedules: seeded search, evidence not proof.",
+   technique="deterministic simulation: seeded fiber scheduler at compiler-inserted yield points + happens-before (vector clock) conflict detector, results compared with the run-alone execution",
+   text="2-16 simulated threads (cooperative fibers) call the codecs documented as pure - scalar put/get of every family, delta, FOR, PFOR, group, dictionary (incl. a shared read-only prebuilt dictionary), RLE, Elias, BP128, float, adaptive, packed arrays and bitstreams on slot/word-disjoint slices of shared storage, adjacent exact-width cells of one buffer, queries on one shared read-only packed array, the analysis entry points - on shared inputs and private outputs. Library code is compiled with TSan's instrumentation pass but linked against the simulator's own callbacks, so every load, store, memcpy/memset and basic block is a yield point at which a seeded scheduler (random preemption, PCT, sequential) decides who runs. Oracles: byte-granular conflict detection (two tasks, same byte, at least one write, neither access happens-before the other by vector clocks over simulated mutex/spin/rwlock/once/atomics; per-task thread-local storage), every return value and output bit-identical to the same program run alone, shared inputs unchanged, no crash/deadlock/step overrun. Exploration over schedules: seeded search, evidence not proof.",
    design_ref="DESIGN.md 2.4, 2.5, 3/C17",
    note="Trusted: the fiber scheduler and shadow map (sim/seams/fiber.cc), clang's TSan instrumentation pass (which accesses are instrumented), llvm-symbolizer for naming conflict sites. Fibers are not hardware threads (no weak memory, no word tearing); the footprint-based detector makes a conflict visible in every schedule in which both tasks execute the code."),
  "C08": dict(engine="E-HIST hist.bitmap", category="exploration",
